@@ -20,7 +20,7 @@ section
 variable {c : Cfg} {s s' : State} {t : Nat} {lb : Lbl}
 
 set_option maxHeartbeats 4000000 in
-theorem Inv4.step_j1 (I : Inv1 c s) (J : Inv2 c s) (K : Inv3 c s) (M : Inv4 c s) (h : StepCase c s t lb s') :
+theorem Inv4.step_j1 (I : Inv1 c s) (J : Inv2 c s) (B : Inv2b s) (K : Inv3 c s) (M : Inv4 c s) (h : StepCase c s t lb s') :
     ∀ t' n, s'.pc t' = .sJoinW n → ∀ m u, m < n → c.workers[m]? = some u → s'.pc u = .exited := by
   intro t' n hp m u hm hu
   have j1 := M.j1
@@ -46,12 +46,15 @@ theorem Inv4.step_j1 (I : Inv1 c s) (J : Inv2 c s) (K : Inv3 c s) (M : Inv4 c s)
   have hne1 := dispatchPc_ne
   have hne2 := onEmpty_ne
   have hst0 : ∀ k, s.pc t = .gTake .stop k → (s.pc t).role = .stopper ∧ (s.pc t).pastB = true := by
-    intro k hp; rw [hp] at hwf ⊢; exact contOK_stop_role c k hwf
+    intro k hp
+    have hnb : ∀ k', k ≠ .bSweep k' := by
+      intro k' e; subst e; have := B.l9 t .stop k' hp; simp [Item.isTask] at this
+    rw [hp] at hwf ⊢; simp only [Pc.role, Pc.pastB]; exact contOK_stop_role c k hwf hnb
   have hidle : s.pc t = .idle → t ∉ c.workers := by
     intro hi hw; rcases I.r4 t hw with h1 | h1 <;> simp [hi, Pc.role] at h1
   have hbs : s.pc t = .bStopping → t ∉ c.workers := by
     intro hi hw; rcases I.r4 t hw with h1 | h1 <;> simp [hi, Pc.role] at h1
-  clear I J K M hwf
+  clear I J B K M hwf
   cases h
   case popClaim ctx i0 k0 nr cl hpc hq hi hcell hfull =>
     have hit := (isTask_iff cl.item).mp (l4 k0 i0 cl hcell)
@@ -75,7 +78,7 @@ theorem Inv4.step_j1 (I : Inv1 c s) (J : Inv2 c s) (K : Inv3 c s) (M : Inv4 c s)
   all_goals (trace_state; sorry)
 
 set_option maxHeartbeats 4000000 in
-theorem Inv4.step_j2 (I : Inv1 c s) (J : Inv2 c s) (K : Inv3 c s) (M : Inv4 c s) (h : StepCase c s t lb s') :
+theorem Inv4.step_j2 (I : Inv1 c s) (J : Inv2 c s) (B : Inv2b s) (K : Inv3 c s) (M : Inv4 c s) (h : StepCase c s t lb s') :
     ∀ t', s'.pc t' = .sEnd → (∀ u, u ∈ c.workers → s'.pc u = .exited) ∧ balExited c s' := by
   intro t' hp
   have j1 := M.j1
@@ -104,12 +107,15 @@ theorem Inv4.step_j2 (I : Inv1 c s) (J : Inv2 c s) (K : Inv3 c s) (M : Inv4 c s)
   have hne1 := dispatchPc_ne
   have hne2 := onEmpty_ne
   have hst0 : ∀ k, s.pc t = .gTake .stop k → (s.pc t).role = .stopper ∧ (s.pc t).pastB = true := by
-    intro k hp; rw [hp] at hwf ⊢; exact contOK_stop_role c k hwf
+    intro k hp
+    have hnb : ∀ k', k ≠ .bSweep k' := by
+      intro k' e; subst e; have := B.l9 t .stop k' hp; simp [Item.isTask] at this
+    rw [hp] at hwf ⊢; simp only [Pc.role, Pc.pastB]; exact contOK_stop_role c k hwf hnb
   have hidle : s.pc t = .idle → t ∉ c.workers := by
     intro hi hw; rcases I.r4 t hw with h1 | h1 <;> simp [hi, Pc.role] at h1
   have hbs : s.pc t = .bStopping → t ∉ c.workers := by
     intro hi hw; rcases I.r4 t hw with h1 | h1 <;> simp [hi, Pc.role] at h1
-  clear I J K M hwf
+  clear I J B K M hwf
   cases h
   case popClaim ctx i0 k0 nr cl hpc hq hi hcell hfull =>
     have hit := (isTask_iff cl.item).mp (l4 k0 i0 cl hcell)
@@ -133,7 +139,7 @@ theorem Inv4.step_j2 (I : Inv1 c s) (J : Inv2 c s) (K : Inv3 c s) (M : Inv4 c s)
   all_goals (trace_state; sorry)
 
 set_option maxHeartbeats 4000000 in
-theorem Inv4.step_j3 (I : Inv1 c s) (J : Inv2 c s) (K : Inv3 c s) (M : Inv4 c s) (h : StepCase c s t lb s') :
+theorem Inv4.step_j3 (I : Inv1 c s) (J : Inv2 c s) (B : Inv2b s) (K : Inv3 c s) (M : Inv4 c s) (h : StepCase c s t lb s') :
     s'.stopReturned = true → (∀ u, u ∈ c.workers → s'.pc u = .exited) ∧ balExited c s' := by
   intro hp
   have j2 := M.j2
@@ -160,12 +166,15 @@ theorem Inv4.step_j3 (I : Inv1 c s) (J : Inv2 c s) (K : Inv3 c s) (M : Inv4 c s)
   have hne1 := dispatchPc_ne
   have hne2 := onEmpty_ne
   have hst0 : ∀ k, s.pc t = .gTake .stop k → (s.pc t).role = .stopper ∧ (s.pc t).pastB = true := by
-    intro k hp; rw [hp] at hwf ⊢; exact contOK_stop_role c k hwf
+    intro k hp
+    have hnb : ∀ k', k ≠ .bSweep k' := by
+      intro k' e; subst e; have := B.l9 t .stop k' hp; simp [Item.isTask] at this
+    rw [hp] at hwf ⊢; simp only [Pc.role, Pc.pastB]; exact contOK_stop_role c k hwf hnb
   have hidle : s.pc t = .idle → t ∉ c.workers := by
     intro hi hw; rcases I.r4 t hw with h1 | h1 <;> simp [hi, Pc.role] at h1
   have hbs : s.pc t = .bStopping → t ∉ c.workers := by
     intro hi hw; rcases I.r4 t hw with h1 | h1 <;> simp [hi, Pc.role] at h1
-  clear I J K M hwf
+  clear I J B K M hwf
   cases h
   case popClaim ctx i0 k0 nr cl hpc hq hi hcell hfull =>
     have hit := (isTask_iff cl.item).mp (l4 k0 i0 cl hcell)
